@@ -45,6 +45,20 @@ def run(ctx):
         bases += sorted(os.path.join(laydir, f) for f in os.listdir(laydir) if f.endswith(".cfb"))
         blist = ctx.path("bases.list")
         R.write_list(blist, bases)
+        # corpus first: damaged images + histories that once panicked (kept minimal witnesses)
+        cdir = os.path.join(C.VERIF, "corpus", PID)
+        corpus_cases = 0
+        if os.path.isdir(cdir):
+            for name in sorted(os.listdir(cdir)):
+                if not name.endswith(".cfb"):
+                    continue
+                img, hist_file = os.path.join(cdir, name), os.path.join(cdir, name[:-4] + ".history")
+                rc0, out0 = C.harness(["damage", "--replay", img, "--history", hist_file], timeout=120)
+                corpus_cases += 1
+                for l in out0.splitlines():
+                    if l.startswith("ORACLE "):
+                        C.add_violation(ctx, signature(l), "corpus/%s: %s" % (name, re.sub(r"[0-9a-f]{60,}", "<bytes>", l)[:300]),
+                                        "# C11: %s\n# replay: harness damage --replay %s --history %s\n%s" % (l[:1500], img, hist_file, open(hist_file).read()))
         rc, out = C.harness(["damage", "--seed", ctx.seed, "--bases", blist, "--count", 8000 if quick else 400000, "--max-ops", 12, "--keepdir", keep], timeout=20000)
         if rc != 0:
             ctx.undischarged.append("harness damage campaign crashed: " + out[-300:])
@@ -71,6 +85,7 @@ def run(ctx):
             "distinct_nontrivial": stat.get("accepted", 0),
             "rule": "bases: library-made snapshots and synthesised foreign layouts; per case 1-3 corruptions — field-level (header fields, DIFAT/FAT/MiniFAT cells incl. cycles, self-loops, out-of-range and special values, directory links/types/sizes/start sectors/names, truncation/extension) and targeted at what open does not walk (mini stream length/start, stream length across the cutoff, stream start elsewhere, chain cells cut/looped/crossed, MiniFAT start/count) — kept when permissive open accepts; then 2-13 calls (open handles with write/set_len/seek/read/flush/close on sizes around 64/4096, put, remove_stream, create_storage, remove_storage_all, get, flush, final drop) in a worker thread; oracle: no panic (hook records file:line), no call longer than 15 s. distinct_nontrivial = accepted damaged images; evaluations = API calls on them + lock-step calls of the model tie",
             "cases": stat.get("cases", 0),
+            "corpus_cases": corpus_cases,
             "accepted_damaged_images": stat.get("accepted", 0),
             "histogram": {k: v for k, v in hist.items() if not k.startswith("accepted:")},
             "accepted_by_corruption": {k[9:]: v for k, v in hist.items() if k.startswith("accepted:")},
